@@ -498,6 +498,16 @@ func runRetry(k *retryCase) {
 			for recv != nil {
 				if k.CancelAfter >= 0 && len(delivered) >= k.CancelAfter && !cancelled {
 					cancelled = true
+					// the first request is on its way: let it reach the handler so that the count is stable
+					for w := 0; w < 2000 && len(delivered) == 0; w++ {
+						srv.mu.Lock()
+						n := len(srv.seen)
+						srv.mu.Unlock()
+						if n >= 1 {
+							break
+						}
+						time.Sleep(time.Millisecond)
+					}
 					srv.mu.Lock()
 					impl["seen_at_cancel"] = len(srv.seen)
 					srv.mu.Unlock()
